@@ -124,3 +124,13 @@ func (this *Allocator) VerifWatched() []uuid.UUID {
 	}
 	return out
 }
+
+// VerifLoopVarCanary reports whether this package is compiled with per-loop loop variables
+// (true for go.mod `go 1.14`): a closure capturing a range variable observes the last element.
+func VerifLoopVarCanary() bool {
+	var fs []func() int
+	for _, v := range []int{1, 2, 3} {
+		fs = append(fs, func() int { return v })
+	}
+	return fs[0]() == 3
+}
